@@ -324,6 +324,9 @@ func (s *Spec) emitProviders(pkg string) string {
 		var ps, rs, hs []string
 		for i, t := range p.Params {
 			ex := s.Expr(t, pkg)
+			if i < len(p.ParamSpell) && p.ParamSpell[i] != "" {
+				ex = p.ParamSpell[i]
+			}
 			if p.Variadic && i == len(p.Params)-1 {
 				ex = "..." + strings.TrimPrefix(ex, "[]")
 			}
@@ -337,7 +340,11 @@ func (s *Spec) emitProviders(pkg string) string {
 				hs = append(hs, "0")
 			}
 		}
-		for _, t := range p.Results {
+		for i, t := range p.Results {
+			if i < len(p.ResultSpell) && p.ResultSpell[i] != "" {
+				rs = append(rs, p.ResultSpell[i])
+				continue
+			}
 			rs = append(rs, s.Expr(t, pkg))
 		}
 		if p.Err {
